@@ -519,10 +519,19 @@ Definition k_upd (U : list term) (ds : list itriple) (u_ts : list itriple) (ins 
 (** * one evaluation per case: (model == implementation, oracle, finding class) *)
 Definition both_store (index_objects : bool) (U : list term) (tr : list (top * tobs)) : bool * bool :=
   (chk_store index_objects U tr, oracle_store index_objects U tr).
+(** the engine model has no prediction for this case ([Unsup]: a table whose chunks have other
+    widths than its column list — a UNION of branches with different numbers of variables — reaches
+    a join, a sort or DISTINCT): such a case is not compared row for row (it is counted as
+    "not modelled" in the evidence); the oracle still judges the implementation's answer *)
+Definition model_unsup (n : nat) (U : list term) (S : list str) (ds order : list itriple) (q : query) (o : qobs) : bool :=
+  match run_select (store_of_ordered (map (utriple U) ds) (map (utriple U) order)) q with
+  | Unsup => true
+  | _ => false
+  end.
 Definition both_select (n : nat) (U : list term) (S : list str) (ds order : list itriple) (q : query) (o : qobs)
-  : bool * bool * Z :=
+  : bool * bool * Z * bool :=
   let s := spec_select n U S ds order q o in
-  (chk_select n U S ds order q o, s, if s then 0 else k_class n U S ds order q o).
+  (chk_select n U S ds order q o, s, (if s then 0 else k_class n U S ds order q o), model_unsup n U S ds order q o).
 Definition both_update (U : list term) (ds : list itriple) (u_ts : list itriple) (ins ok : bool) (after : list itriple)
   : bool * bool * Z :=
   let s := spec_update U ds u_ts ins ok after in
